@@ -190,10 +190,18 @@ func writeIsTriviallySerializableSpecializations(w *formatting.IndentedWriter, e
 	// A record that differs in a previous version is read from / written to streams of that version
 	// field by field through its compatibility serializers. Containers decide on the element *type*
 	// whether to copy elements in bulk, so such a record must not be declared trivially serializable.
+	// A generic record that is itself unchanged can be instantiated with a type that changed
+	// (Pair<MyNum> with MyNum: float -> double), so generic records are only declared trivially
+	// serializable when no definition changed in any previous version.
 	changedRecords := make(map[string]bool)
+	anyDefinitionChanged := false
 	for _, ns := range env.Namespaces {
 		for _, version := range ns.Versions {
 			for _, change := range ns.DefinitionChanges[version] {
+				if change == nil {
+					continue
+				}
+				anyDefinitionChanged = true
 				if recordChange, ok := change.(*dsl.RecordChange); ok && recordChange.LatestDefinition() != nil {
 					changedRecords[recordChange.LatestDefinition().GetDefinitionMeta().GetQualifiedName()] = true
 				}
@@ -204,6 +212,9 @@ func writeIsTriviallySerializableSpecializations(w *formatting.IndentedWriter, e
 	for _, ns := range env.Namespaces {
 		for _, td := range ns.TypeDefinitions {
 			if changedRecords[td.GetDefinitionMeta().GetQualifiedName()] {
+				continue
+			}
+			if anyDefinitionChanged && len(td.GetDefinitionMeta().TypeParameters) > 0 {
 				continue
 			}
 			writeIsTriviallySerializableSpecialization(w, td)
